@@ -242,6 +242,9 @@ def long_run(chk, profiles=None, ops=None, random_units=60, name="long", max_byt
         kinds = list(ops) if ops else ["enforce", "prepare", "rule"]
         if ctx:
             kinds = ["ctx", "ctx", "allows"]
+        if ops and "compare" in ops:
+            l3_run(chk, name + "-pairs", driver="pairs", profiles=profiles, corpus_file=os.path.join(d, "pairs.ndjson"))
+            kinds = [k for k in kinds if k != "compare"] or ["enforce"]
         l3_run(chk, name + "-units", driver="corpus", per_string=4, kinds=kinds, profiles=profiles, corpus_file=os.path.join(d, "units.ndjson"))
     finally:
         shutil.rmtree(d, ignore_errors=True)
